@@ -136,6 +136,8 @@ def check_one(rec, recs, tx):
                                                       "aliases": ("a_lone", "a_badfqdn", "a_bin", "a_long", "a_longname", "a_comment")}[what]))
     out = []
     if st != "ok":
+        if st == "crash":
+            return [("c15s.%s.crash %s" % (what, B.crash_sig(detail)), "crash on %s text %s\n%s" % (what, tsig(tx), detail))]
         return [("c15s.%s.%s junk=%s" % (what, st, bad), "%s on %s text %s\n%s" % (st, what, tsig(tx), detail))]
     if leak:
         out.append(("c15s.%s.leak junk=%s" % (what, bad), "leak after %s text %s\n%s" % (what, tsig(tx), detail)))
@@ -170,7 +172,7 @@ def check_one(rec, recs, tx):
             if exp["only_empty"] or (not es):
                 ok = v in ([], v0)
             else:
-                ok = v == es or v == es_noll       # link-local entries: decided by C16
+                ok = v == es
             if not ok:
                 out.append(("c15s.csv.wrong_result bad=%s" % bad, "SUCCESS with servers %s, specification allows %s (or an error when a "
                             "token is malformed) for %s" % (v, es, tsig(tx))))
